@@ -48,6 +48,40 @@ CHECKS = [
                 "paddings is enumerated exhaustively.",
         "note": "Trusts vf.vt terminal semantics and the one-column-fill precondition documented for Padding.",
     },
+    {
+        "property_id": "C08",
+        "technique": "model-based testing: generated operation histories in lock-step with a reference model of RenderIterator",
+        "text": "Generated set-ups (definite/Sub/INDEFINITE stream renderables, loops, cache settings, the three "
+                "constructors, paddings incl. terminal-relative, static/DYNAMIC duration) and op lists (next, seek in "
+                "all three modes with in- and out-of-range offsets, set_frame_duration/padding/render_args/render_size, "
+                "close, renderable.seek, terminal resize) are run on the real iterator and on a reference model "
+                "written from the docstrings; every Frame field, exception type, loop countdown, renderable.tell() "
+                "and, for INDEFINITE sources, the seek handed to the renderable are compared after every step.",
+        "note": "Where the documentation is silent (next frame number == frame_count after the last frame of a loop) "
+                "the model follows the implementation; padded outputs are built with ExactPadding.pad (C05).",
+    },
+    {
+        "property_id": "C16",
+        "technique": "model-based testing of generated programs over fresh render-class trees against a documentation-derived reference model",
+        "text": "Hypothesis generates programs over fresh render-class trees (depth<=4, namespaces associated before "
+                "use) and runs 12-25 constructor/update/convert/|/+/[]/in/==/hash/RenderData operations plus "
+                "definition-time negatives against the real API and, in lock-step, a reference model; every result and "
+                "exception class is compared, and after each operation every previously created object, every class's "
+                "default namespaces and interned default set are re-verified (immutability/aliasing).",
+        "note": "Trusts vf/ref/renderargs.py as the reading of the docs (either documented error accepted when two "
+                "conditions coincide); single inheritance, <=8 classes, <=3 primitive fields, <=25 ops per program.",
+    },
+    {
+        "property_id": "C20",
+        "technique": "model-based testing of generated set/unset programs over style-subclass trees; render method decoded from output framing",
+        "text": "Generated programs (subclass trees below KittyImage/ITerm2Image, instances, set/unset/invalid-write "
+                "ops for render method, forced_support, jpeg_quality, read_from_file, native_anim_max_bytes, renders "
+                "with and without per-call override) run in lock-step with a documentation-derived model; after every "
+                "operation every class and instance is re-observed (getters, instantiation behaviour, and the render "
+                "method/JPEG/read-from-file actually used, decoded from the output).",
+        "note": "Trusts vf/ref/styles.py (docstrings + glossary 'descendant'), the framing decoder in c20.py and "
+                "Pillow for JPEG quantisation tables; single-inheritance trees only.",
+    },
 ]
 
 NOT_APPLICABLE = [
